@@ -221,7 +221,7 @@ fn main() {
     let l_reach = r.args.extra_value("--l-reach").and_then(|s| s.parse().ok()).unwrap_or(r.tier().pick(6usize, 8usize));
     // enlarged alphabet (one symbol per variant of every non-database error family): smaller depth
     let le_all = r.args.extra_value("--le-all").and_then(|s| s.parse().ok()).unwrap_or(r.tier().pick(2usize, 3usize));
-    let le_reach = r.args.extra_value("--le-reach").and_then(|s| s.parse().ok()).unwrap_or(r.tier().pick(4usize, 5usize));
+    let le_reach = r.args.extra_value("--le-reach").and_then(|s| s.parse().ok()).unwrap_or(r.tier().pick(3usize, 4usize));
     let jobs = r.args.jobs;
     let r_ref = &r;
     let mv = retrysym::MinViolations::default();
@@ -259,7 +259,7 @@ fn main() {
         vcore::machinery_error("vacuity: no non-idempotent re-send decision was ever seen");
     }
     r.set_rule(&format!(
-        "E-BFS over histories (state = failure history on a fresh session; replayed, sessions do not clone). Base alphabet {base_len} symbols (every DbError variant x the field values any policy branches on; broken connection; stream-id exhaustion; 9 parse/serialisation errors), enlarged alphabet {} symbols (base + one symbol per variant of every non-database family: every BrokenConnectionErrorKind incl. nested frame-header / event variants and 7 write / 3 read io::ErrorKinds, every variant of the serialisation / body-extension / result-parse / error-parse / unexpected-response families) x idempotent flag x 11 initial consistencies x 3 policies. Sweep 'all': every history of length <= {l_all}; sweep 'reach': every history the loop can produce (continues only after a re-send decision) of length <= {l_reach}; the same two sweeps over the enlarged alphabet with lengths <= {le_all} / <= {le_reach} (only histories containing an enlarged-alphabet symbol are counted there). states = history nodes, transitions = decisions judged (one per node), traces_validated = nodes whose whole prefix was re-derived on a fresh session and compared with the parent's record. distinct_nontrivial = histories with at least one earlier re-send decision (session flags / lowered consistency in play).",
+        "E-BFS over histories (state = failure history on a fresh session; replayed, sessions do not clone). Base alphabet {base_len} symbols (every DbError variant x the field values any policy branches on; broken connection; stream-id exhaustion; 9 parse/serialisation errors), enlarged alphabet {} symbols (base + one symbol per variant of every non-database family: every BrokenConnectionErrorKind incl. nested frame-header / event variants and 7 write / 3 read io::ErrorKinds, every variant of the serialisation / body-extension / result-parse / error-parse / unexpected-response families; every further field combination of the DbError variants with payload: RateLimitReached x op_type x rejected_by_coordinator, body consistencies and required/alive/received extremes of Unavailable / ReadTimeout / WriteTimeout, ReadFailure / WriteFailure x write type x counts, AlreadyExists / FunctionFailure / Unprepared shapes, unknown codes incl. collisions with retryable codes) x idempotent flag x 11 initial consistencies x 3 policies. Sweep 'all': every history of length <= {l_all}; sweep 'reach': every history the loop can produce (continues only after a re-send decision) of length <= {l_reach}; the same two sweeps over the enlarged alphabet with lengths <= {le_all} / <= {le_reach} (only histories containing an enlarged-alphabet symbol are counted there). states = history nodes, transitions = decisions judged (one per node), traces_validated = nodes whose whole prefix was re-derived on a fresh session and compared with the parent's record. distinct_nontrivial = histories with at least one earlier re-send decision (session flags / lowered consistency in play).",
         syms.len()
     ));
     r.set_exhaustive(true);
